@@ -59,15 +59,16 @@ type envState struct {
 	nowCount int
 	sleepDue int64
 
-	timers   []*timerModel
-	mutexes  map[*value]*mutexState
-	wgs      map[*value]*wgState
-	onces    map[*value]bool
-	syncMaps map[*value]*omap
-	lockLog  []string
-	envVars  map[string]string
-	b64      map[string]b64Token
-	jwt      *jwtShape
+	timers      []*timerModel
+	mutexes     map[*value]*mutexState
+	wgs         map[*value]*wgState
+	onces       map[*value]bool
+	syncMaps    map[*value]*omap
+	lockLog     []string
+	envVars     map[string]string
+	b64         map[string]b64Token
+	jwt         *jwtShape
+	cronEntries int
 }
 
 func newEnvState() *envState {
@@ -478,6 +479,13 @@ func init() {
 		return withDeadline(fr, args[0], timeNanos(args[1]))
 	})
 	E("context.WithValue", func(fr *frame, args []value) value { return args[0] })
+	E("context.WithCancelCause", func(fr *frame, args []value) value {
+		cv, c := fr.i.newCtx(args[0], nil)
+		return tuple{cv, &nativeFn{name: "cancelCause", f: func(fr *frame, a []value) value {
+			c.cancel(ctxErr("Canceled"))
+			return nil
+		}}}
+	})
 	E("(*context.cancelCtx).Done", func(fr *frame, args []value) value {
 		return unbox(args[0], "context").(*ctxModel).done
 	})
